@@ -3,6 +3,7 @@
 mod common;
 mod m_adapt;
 mod m_diff;
+mod m_ovec;
 
 use std::io::{BufRead, Write};
 
@@ -12,6 +13,7 @@ fn main() {
     let f: fn(&str, &mut String) = match mode.as_str() {
         "diff" => m_diff::run_line,
         "adapt" => m_adapt::run_line,
+        "ovec" => m_ovec::run_line,
         _ => {
             eprintln!("unknown mode {mode}");
             std::process::exit(2)
